@@ -55,7 +55,18 @@ static SYNCLOG: Mutex<Vec<(String, String)>> = Mutex::new(Vec::new());
 static KILL_AT: Mutex<Option<(String, String)>> = Mutex::new(None);
 static RACE_STORE: Mutex<Option<Store>> = Mutex::new(None);
 
+thread_local! {
+    /// this thread's next append is held at `append.id` (inside the append lock) for so many ms
+    static PARK_MS: std::cell::Cell<u64> = const { std::cell::Cell::new(0) };
+}
+
 fn on_serve_point(p: &xs::verif::Point) {
+    if p.name == "append.id" {
+        let ms = PARK_MS.with(|c| c.replace(0));
+        if ms > 0 {
+            std::thread::sleep(std::time::Duration::from_millis(ms));
+        }
+    }
     let Some(f) = p.frame else { return };
     if let Some((point, suffix)) = KILL_AT.lock().unwrap().as_ref() {
         if p.name == point && f.topic.ends_with(suffix.as_str()) {
@@ -166,6 +177,21 @@ async fn exec(store: &Store, gate: &Arc<Gate>, kind: &str, op: &Value) -> Value 
     match kind {
         "clock" => {
             xs::verif::set_now_ms(op["now"].as_u64().unwrap());
+            json!({"ok": null})
+        }
+        "append" if op["park_ms"].as_u64().unwrap_or(0) > 0 => {
+            // an append that has its id and holds the append lock for a while before it is stored: whoever
+            // subscribes meanwhile gets the lock only after this frame is committed and broadcast
+            let frame = match frame_from_json(op) {
+                Ok(f) => f,
+                Err(e) => return json!({"err": format!("bad-op:{}", e)}),
+            };
+            let (st, ms) = (store.clone(), op["park_ms"].as_u64().unwrap_or(0));
+            std::thread::spawn(move || {
+                PARK_MS.with(|c| c.set(ms));
+                let _ = st.append(frame);
+            });
+            tokio::time::sleep(std::time::Duration::from_millis(10)).await;
             json!({"ok": null})
         }
         "append" => {
